@@ -631,7 +631,21 @@ impl private::StoreCallbacks<AnnotationDataSet> for AnnotationStore {
                 self.remove_cascaded(a_handle)?;
             }
         }
+        //annotations that point at keys or data in this set (metadata) reference the set too
+        let mut annotations: BTreeSet<AnnotationHandle> = BTreeSet::new();
+        if let Some(map) = self.key_annotation_metamap.data.get(handle.as_usize()) {
+            annotations.extend(map.data.iter().flatten());
+        }
+        if let Some(map) = self.data_annotation_metamap.data.get(handle.as_usize()) {
+            annotations.extend(map.data.iter().flatten());
+        }
+        for a_handle in annotations {
+            self.remove_cascaded(a_handle)?;
+        }
         self.dataset_annotation_metamap.remove_all(handle);
+        self.key_annotation_metamap.remove_all(handle);
+        self.data_annotation_metamap.remove_all(handle);
+        self.dataset_data_annotation_map.remove_all(handle);
         Ok(())
     }
 }
